@@ -5,7 +5,7 @@ SEC = {'container': 'Container', 'image': 'Image', 'volume': 'Volume', 'network'
 TYPES = list(SEC)
 BASE = {'container': ['Image=localhost/img'], 'image': ['Image=quay.io/x/y'], 'volume': [], 'network': [], 'pod': [],
         'kube': ['Yaml=/opt/k.yaml'], 'build': ['ImageTag=localhost/t', 'File=/opt/Containerfile']}
-VALS = ['-/dev/null:/dev/n:rwm', '-/dev/null:/dev/n', '/dev/null:/dev/n:rwm', '-/dev/nope:/dev/n:rwm', 'x', 'a b', '"a b"', "'q'", 'yes', 'no', 'true', '0', '', 'k=v', 'k=v l=w', '"k=v w" z=1', 'a:b', 'a:b:c:d', '/abs/p', './rel/p', '../up',
+VALS = ['k=1 k=2', 'a=1 b=2 a=3', '-/dev/null:/dev/n:rwm', '-/dev/null:/dev/n', '/dev/null:/dev/n:rwm', '-/dev/nope:/dev/n:rwm', 'x', 'a b', '"a b"', "'q'", 'yes', 'no', 'true', '0', '', 'k=v', 'k=v l=w', '"k=v w" z=1', 'a:b', 'a:b:c:d', '/abs/p', './rel/p', '../up',
         '%h/x', '10', '1-2/tcp', 'é', 'a\\nb', 'a\\x41', 'auto', 'manual', 'keep-id', 'image', 'x.volume:/d', 'type=bind,source=./s,target=/t',
         'type=tmpfs,dst=/x', 'foo.network', 'host', 'none:opt', 'oneshot', 'notify', 'mixed', 'healthy', 'yaml', 'unit', 'file', 'registry',
         '-/dev/null', '-/dev/nope:rw', 'CAP_X y', 'a,b', 'a=b=c', '%%x', 'x y  z', '1000', 'keep-id:uid=1', 'local', 'nfs', '10.0.0.0/24']
